@@ -453,7 +453,7 @@ def do_replay(path):
     body = json.load(open(path))
     v = body.get("violation", {})
     print(json.dumps(v, indent=1))
-    case = v.get("case")
+    case = v.get("case") or (v.get("example_disagreement") or {}).get("case")
     if case and case.split("\t")[0] in FN_KINDS:
         build_all()
         obs = harness_replay(case)
